@@ -488,7 +488,7 @@ def rule_r4(ctx):
         cnt = next((k.value for k in c.keywords if k.arg == "count"), c.args[2] if len(c.args) > 2 else None)
         defs = [cnt] if cnt is not None and not isinstance(cnt, ast.Name) else []
         if isinstance(cnt, ast.Name):
-            defs = [n.value for n in ast.walk(et.node) if isinstance(n, ast.Assign) and any(isinstance(t, ast.Name) and t.id == cnt.id for t in n.targets)]
+            defs = _defs_of(et.node, cnt.id)
         for d in defs:
             w = _controlling_widths(d, bw)
             if w is None or not any(x < 8 for x in w):
@@ -501,6 +501,23 @@ def rule_r4(ctx):
               ok and seen >= 1, et, et.node,
               "the packed byte count of an external sub-byte tensor is not derived from its bit width",
               how="definitions of the buffer read's `count=` argument under the sub-byte guard", nontrivial=True)
+
+
+def _defs_of(fn_node, name: str) -> list:
+    """Expressions a local is bound to: plain assignments, and the matching element of `a, b = (x, y)`."""
+    out = []
+    for n in ast.walk(fn_node):
+        if not isinstance(n, ast.Assign):
+            continue
+        for t in n.targets:
+            if isinstance(t, ast.Name) and t.id == name:
+                out.append(n.value)
+            elif isinstance(t, (ast.Tuple, ast.List)):
+                for i, el in enumerate(t.elts):
+                    if isinstance(el, ast.Name) and el.id == name:
+                        v = n.value
+                        out.append(v.elts[i] if isinstance(v, (ast.Tuple, ast.List)) and len(v.elts) == len(t.elts) else v)
+    return out
 
 
 def _field_sets(f: FuncInfo):
@@ -705,6 +722,15 @@ def _taints(f, e, dst_handle: str, depth=0, seen=None) -> set[str]:
                     tg = n.targets if isinstance(n, ast.Assign) else [n.target]
                     if any(isinstance(t, ast.Name) and t.id == x.id for t in tg):
                         out |= _taints(f, n.value, dst_handle, depth + 1, seen)
+                    # `a, b = (x, y)` binds element-wise (what `a, b = helper()` leaves once a pair-returning helper is expanded)
+                    for t in tg:
+                        if isinstance(t, (ast.Tuple, ast.List)):
+                            for i, el in enumerate(t.elts):
+                                if isinstance(el, ast.Name) and el.id == x.id:
+                                    v = n.value
+                                    if isinstance(v, (ast.Tuple, ast.List)) and len(v.elts) == len(t.elts):
+                                        v = v.elts[i]
+                                    out |= _taints(f, v, dst_handle, depth + 1, seen)
     return out
 
 
@@ -745,7 +771,7 @@ def rule_r8(ctx):
 def rule_r9(ctx):
     cls = ctx.repo.cls("onnx_ir._core:ExternalTensor")
     maps, positions = [], []
-    for f in cls.methods.values():
+    for f in ctx.repo.live(cls.methods.values()):
         me = f.params[0] if f.params else "self"
         # the mapping itself or a local bound to it
         raw_names = {f"{me}.raw"} | {a.targets[0].id for a in own_nodes(f.node) if isinstance(a, ast.Assign) and isinstance(a.targets[0], ast.Name)
